@@ -620,6 +620,19 @@ def crash_part(ctx, tabs, rng, n, scratch):
         ctx.violation("BUILD.star with a (practically) non-terminating loop: the loader does not return within 6 s and has no step limit",
                       {"kind": "oracle", "oracle": "no panic / hang (fuzzing)", "file": "BUILD.star", "corruption": "runaway-program", "text": runaway, "impl": r},
                       signature="starlark:unbounded-evaluation")
+    # the same program, but the command's context is cancelled after 1 s (what SIGINT / SIGTERM do): loading must stop
+    r = G.run_resilient(ctx, [{"op": "load.packages", "dir": scratch, "files": [["BUILD.star", runaway]], "workers": 1, "timeout_s": 8,
+                               "cancel_after_ms": 1000}])[0]
+    fz["cases"] += 1
+    fz["by_kind"]["runaway-program-interrupted"] = 1
+    ctx.coverage["evaluations"] += 1
+    desc = bad_reply(r)
+    if desc or not r.get("err"):
+        fz["panics_or_hangs"] += 1
+        ctx.violation("BUILD.star with a (practically) non-terminating loop: loading does not stop when the command's context is cancelled "
+                      "(after SIGINT grog prints 'Received signal, exiting...' and keeps evaluating; further SIGINTs are swallowed)",
+                      {"kind": "oracle", "oracle": "no hang: cancellation stops the loaders", "file": "BUILD.star", "corruption": "runaway-program, context cancelled after 1 s",
+                       "text": runaway, "impl": r}, signature="starlark:ignores-cancellation")
     # corrupted Makefiles / scripts also go through the scanner correspondence
     scanner_part(ctx, tabs, scan_texts, scratch)
     return True
